@@ -383,7 +383,7 @@ def gen_scenario(rng, ops=None, force=None):
         params["nodata_via"] = rng.choice(["attr", "arg"])
         kind = rng.choice(["precip", "smallint"])
     elif op == "zonal_mean":
-        layout = ["time", "y", "x"]
+        layout = rng.choice([["time", "y", "x"], ["time", "y", "x"], ["time", "x", "y"]])
         dtype = rng.choice(["float32", "float64", "int16", "int32"])
         kind = "smallint"  # integer-valued -> accumulation is exact, order cannot matter
         nz = rng.randint(1, 5)
@@ -530,8 +530,8 @@ def gen_scenario(rng, ops=None, force=None):
         "secondary": secondary,
         "secondary_backing": {k: rng.choice(["numpy", "dask"]) for k in secondary},
         # labelled secondary rasters are matched by dimension NAME: their own dim order is free
-        "secondary_order": {k: rng.choice([None, "yx", "xy"]) for k in secondary} if op != "zonal_mean" else {},
-        "aux_coords": rng.random() < 0.3,
+        "secondary_order": {k: rng.choice([None, "yx", "xy"]) for k in secondary},
+        "aux_coords": rng.choice([False, False, False, False, False, False, True, True, "dask"]),
         # how scalar arguments / the nodata attribute are typed, and how the cube is named
         "scalar_kind": rng.choice(["py", "py", "np", "npfloat"]),
         "cube_name": rng.choice(["band", "band", None, "ndvi"]),
@@ -587,6 +587,10 @@ def build_cube(scn, perm=None):
         # (a label of the position, hence NOT permuted with the pixel data in O5), one scalar
         lat = (y.reshape(-1, 1) + 0.001 * x.reshape(1, -1)).astype("float64")
         coords["doy"] = ("time", np.asarray(time.dayofyear, dtype="int64"))
+        if scn.get("aux_coords") == "dask":
+            import dask.array as dsa
+
+            lat = dsa.from_array(lat, chunks=(max(1, lat.shape[0] // 2), lat.shape[1]))
         coords["lat2d"] = (("y", "x"), lat)
         coords["level"] = 7
     da = xr.DataArray(data, dims=("time", "y", "x"), coords=coords, name=scn.get("cube_name", "band"))
